@@ -198,6 +198,31 @@ Theorem C09_contract_selectors_agree :
 Proof. exact contract_selectors_agree_main. Qed.
 Print Assumptions C09_contract_selectors_agree.
 
+(* REJECTED ATTEMPTS LEAVE NO TRACE.  add_method_handler as a state transition (Router/Args.v [accepts]: not an
+   ABIReturnSubroutine / never-executed config / signature already registered / selector collision => rejected):
+   a rejected attempt changes neither the method table nor the contract; an accepted one appends exactly its
+   own entry; and after ANY sequence of attempts the contract lists every dispatched signature exactly once. *)
+Theorem C09_rejected_attempt_leaves_contract :
+  forall (hash : string -> bytes) st a,
+    accepts hash st a = None ->
+    attempt_step hash st a = st /\ contract_methods (attempt_step hash st a) = contract_methods st.
+Proof. exact rejected_attempt_leaves_contract_main. Qed.
+Print Assumptions C09_rejected_attempt_leaves_contract.
+
+Theorem C09_accepted_attempt_appends :
+  forall (hash : string -> bytes) st a r,
+    accepts hash st a = Some r ->
+    contract_methods (attempt_step hash st a) = contract_methods st ++ [spec_of r].
+Proof. exact accepted_attempt_appends_main. Qed.
+Print Assumptions C09_accepted_attempt_appends.
+
+Theorem C09_contract_lists_each_once :
+  forall (hash : string -> bytes) l st,
+    NoDup (map dispatched_sig_str st) ->
+    NoDup (map (fun m => spec_sig_str m) (contract_methods (run_attempts hash st l))).
+Proof. exact contract_lists_each_once_main. Qed.
+Print Assumptions C09_contract_lists_each_once.
+
 (* the program always dispatches on the ARC-4 signature under the REGISTERED name *)
 Theorem C09_dispatched_is_registered :
   forall r, dispatched_sig_str r = arc4_sig_str (registered_sig r).
